@@ -5,7 +5,7 @@ Models: Model/Encoding.lean (bytes, header, originators, ABI payloads and their 
 Lemmas/Tick*.lean.  `H` is the 32-byte hash (Keccak-256 in the driver; a parameter here).
 -/
 import BandVerif.Lemmas.EncodingRT
-import BandVerif.Lemmas.Tick
+import BandVerif.Lemmas.TickApprox
 import BandVerif.Model.EncodingSrc
 import BandVerif.Exec.Keccak
 
@@ -152,18 +152,33 @@ theorem signal_id_roundtrip (s : Bytes) (hl : s.length ≤ 32) (h0 : s.head? ≠
 theorem tick_price_strictly_increasing (t1 t2 : Int) (h1 : Tick.inRange t1 = true) (h2 : Tick.inRange t2 = true) (h : t1 < t2) :
     Tick.x96 t1 < Tick.x96 t2 := Tick.x96_strictMono t1 t2 h1 h2 h
 
-/-- PROPERTY (tick conversion, PARTIAL): PriceToTick returns the largest tick whose price does not exceed the input,
-    for every price at which its 16-bit logarithm approximation is within one tick of the truth (`approxOK`, a decidable
-    predicate the driver evaluates on every sampled price and on every tick boundary).  MISSING for the full statement:
-    `∀ p, 0 < p → p < 2^64 → approxOK p` (an error analysis of the iterated-squaring logarithm). -/
-theorem price_to_tick_largest_partial (price : Nat) (r : Int) (hok : Tick.approxOK price = true)
-    (h : Tick.priceToTick price = some r) : Tick.IsLargest price (r - Tick.offset) :=
-  Tick.priceToTick_largest_partial price r hok h
+/-- PROPERTY (tick conversion): for EVERY positive uint64 price, PriceToTick succeeds and returns the largest valid tick
+    whose price does not exceed the input.  No hypothesis on the logarithm approximation is left: `approxTick` is proved
+    monotone in the price (bit-level: `msbOf`, the mantissa shift and the sixteen squaring steps of `logGo` are each
+    monotone, `Lemmas/TickApproxDef.lean`), so it is enough to look at the first and last price of every tick segment,
+    and those 2 × 443 638 evaluations are done by the kernel (`Lemmas/TickApprox/P*.lean`, 434 chunks). -/
+theorem price_to_tick_largest (price : Nat) (h1 : 1 ≤ price) (h2 : price < 2 ^ 64) :
+    ∃ r, Tick.priceToTick price = some r ∧ Tick.IsLargest price (r - Tick.offset) := by
+  obtain ⟨r, hr⟩ := Tick.priceToTick_total price h1 h2
+  exact ⟨r, hr, Tick.priceToTick_largest price r h1 h2 hr⟩
+
+/-- the logarithm approximation is within one tick of the true tick for every uint64 price -/
+theorem approximation_within_one_tick (price : Nat) (h1 : 1 ≤ price) (h2 : price < 2 ^ 64) :
+    ∃ T : Int, Tick.x96 T ≤ price * Tick.q96 ∧ price * Tick.q96 < Tick.x96 (T + 1) ∧
+      T - 1 ≤ Tick.approxTick price ∧ Tick.approxTick price ≤ T + 1 := by
+  obtain ⟨T, _, _, a, b, c, d⟩ := Tick.approx_within_one price h1 h2
+  exact ⟨T, a, b, c, d⟩
+
+/-- the approximate tick is monotone in the price -/
+theorem approximation_monotone (p q : Nat) (hp : 1 ≤ p) (hpq : p ≤ q) (hq : q < 2 ^ 64) :
+    Tick.approxTick p ≤ Tick.approxTick q := Tick.approxTick_mono p q hp hpq hq
+
+/-- price 0 is rejected (the Go code returns an error) -/
+theorem price_to_tick_rejects_zero : Tick.priceToTick 0 = none := by decide
 
 /-! non-vacuity -/
 example : decFeeds (encFeeds [⟨List.replicate 31 0 ++ [65], 7⟩] 1700000000) = some ([⟨List.replicate 31 0 ++ [65], 7⟩], 1700000000) := by decide +kernel
-example : Tick.approxOK 1000000000 = true ∧ Tick.priceToTick 1000000000 = some 262144 := by decide +kernel
-example : Tick.approxOK 18446744073709551615 = true ∧ Tick.priceToTick 1 = some 54900 := by decide +kernel
+example : Tick.priceToTick 1000000000 = some 262144 ∧ Tick.priceToTick 1 = some 54900 ∧ Tick.priceToTick 18446744073709551615 = some 498537 := by decide +kernel
 example : (Keccak.keccak256 []).take 4 = [0xc5, 0xd2, 0x46, 0x01] := by decide +kernel
 
 end C11
